@@ -742,4 +742,307 @@ theorem delete_inv (mi : MasterIndex) (a : ASet) (inv : Inv mi a) (h : Handle) :
       exact inv.ovInvalid _ hs
     · exact inv
 
+/-! ### `Intersect` and `Sub` -/
+
+theorem loop_spec (mi : MasterIndex) (a : ASet) (keep : Handle → Bool) (loop : List Handle → ASet → ASet)
+    (hnil : ∀ r, loop [] r = r)
+    (hcons : ∀ h hs r, loop (h :: hs) r =
+      if keep h then loop hs (r.set mi h ((a.get mi h).getD 0)) else loop hs r) :
+    ∀ (hs : List Handle) (r : ASet), Inv mi r →
+      Inv mi (loop hs r) ∧ ∀ h, (loop hs r).get mi h =
+        if h ∈ hs ∧ keep h = true then some ((a.get mi h).getD 0) else r.get mi h
+  | [], r, inv => by rw [hnil]; exact ⟨inv, fun h => by simp⟩
+  | x :: hs, r, inv => by
+    rw [hcons]
+    by_cases hk : keep x = true
+    · simp only [hk, if_true]
+      obtain ⟨i1, g1⟩ := loop_spec mi a keep loop hnil hcons hs _ (set_inv mi r inv x ((a.get mi x).getD 0))
+      refine ⟨i1, ?_⟩
+      intro h
+      rw [g1 h, get_set mi r inv]
+      by_cases hx : h = x
+      · subst hx; simp [hk]
+      · simp [hx]
+    · simp only [hk, Bool.false_eq_true, if_false]
+      obtain ⟨i1, g1⟩ := loop_spec mi a keep loop hnil hcons hs r inv
+      refine ⟨i1, ?_⟩
+      intro h
+      rw [g1 h]
+      by_cases hx : h = x
+      · subst hx; simp [hk]
+      · simp [hx]
+
+theorem intersectLoop_cons (mi : MasterIndex) (a other : ASet) (h : Handle) (hs : List Handle) (r : ASet) :
+    intersectLoop mi a other (h :: hs) r =
+      if other.has mi h then intersectLoop mi a other hs (r.set mi h ((a.get mi h).getD 0))
+      else intersectLoop mi a other hs r := by
+  simp only [intersectLoop]
+  split
+  · cases a.get mi h <;> rfl
+  · rfl
+
+theorem subLoop_cons (mi : MasterIndex) (a other : ASet) (h : Handle) (hs : List Handle) (r : ASet) :
+    subLoop mi a other (h :: hs) r =
+      if !other.has mi h then subLoop mi a other hs (r.set mi h ((a.get mi h).getD 0))
+      else subLoop mi a other hs r := by
+  simp only [subLoop]
+  split
+  · cases a.get mi h <;> rfl
+  · rfl
+
+/-- **Intersect**: the members of `a` that `other` has, with `a`'s values -/
+theorem get_intersect (mi : MasterIndex) (a other : ASet) (inv : Inv mi a) (h : Handle) :
+    Inv mi (a.intersect mi other) ∧
+    (a.intersect mi other).get mi h = if other.has mi h then a.get mi h else none := by
+  obtain ⟨i1, g1⟩ := loop_spec mi a (fun h => other.has mi h) (intersectLoop mi a other) (fun _ => rfl)
+    (intersectLoop_cons mi a other) (a.keys mi) (ASet.new mi) (new_inv mi)
+  refine ⟨i1, ?_⟩
+  unfold ASet.intersect
+  rw [g1 h, get_new]
+  have hk := mem_keys_iff mi a inv.toWF h
+  simp only [hk]
+  unfold ASet.has
+  cases hg : a.get mi h <;> cases ho : other.get mi h <;> simp [hg, ho]
+
+/-- **Sub**: the members of `a` that `other` does not have, with `a`'s values -/
+theorem get_subtract (mi : MasterIndex) (a other : ASet) (inv : Inv mi a) (h : Handle) :
+    Inv mi (a.subtract mi other) ∧
+    (a.subtract mi other).get mi h = if other.has mi h then none else a.get mi h := by
+  obtain ⟨i1, g1⟩ := loop_spec mi a (fun h => !other.has mi h) (subLoop mi a other) (fun _ => rfl)
+    (subLoop_cons mi a other) (a.keys mi) (ASet.new mi) (new_inv mi)
+  refine ⟨i1, ?_⟩
+  unfold ASet.subtract
+  rw [g1 h, get_new]
+  have hk := mem_keys_iff mi a inv.toWF h
+  simp only [hk]
+  unfold ASet.has
+  cases hg : a.get mi h <;> cases ho : other.get mi h <;> simp [hg, ho]
+
+/-! ### representation of a reference map; the executable statement -/
+
+structure Rep (mi : MasterIndex) (a : ASet) (ref : Ref) : Prop where
+  inv : Inv mi a
+  nodup : (ref.map (·.1)).Nodup
+  get : ∀ h, a.get mi h = ref.get h
+
+theorem rep_new (mi : MasterIndex) : Rep mi (ASet.new mi) [] :=
+  ⟨new_inv mi, by simp, fun h => by rw [get_new]; rfl⟩
+
+theorem rep_set {mi : MasterIndex} {a : ASet} {ref : Ref} (r : Rep mi a ref) (h : Handle) (v : Nat) :
+    Rep mi (a.set mi h v) (ref.set h v) :=
+  ⟨set_inv mi a r.inv h v, ovSet_nodup _ _ _ r.nodup, fun h' => by
+    rw [get_set mi a r.inv, Ref.set, Ref.get, ovGet_ovSet, r.get h']; rfl⟩
+
+theorem rep_insert {mi : MasterIndex} {a : ASet} {ref : Ref} (r : Rep mi a ref) (h : Handle) :
+    Rep mi (a.insert mi h) (ref.set h 0) := rep_set r h 0
+
+theorem rep_delete {mi : MasterIndex} {a : ASet} {ref : Ref} (r : Rep mi a ref) (h : Handle) :
+    Rep mi (a.delete mi h) (ref.delete h) :=
+  ⟨delete_inv mi a r.inv h, ovDel_nodup _ _ r.nodup, fun h' => by
+    rw [get_delete mi a r.inv, Ref.delete, Ref.get, ovGet_ovDel, r.get h']; rfl⟩
+
+theorem ovGet_filter (o : List (Handle × Nat)) (q : Handle → Bool) (h : Handle) :
+    ovGet (o.filter fun p => q p.1) h = if q h then ovGet o h else none := by
+  induction o with
+  | nil => simp [ovGet]
+  | cons p o ih =>
+    simp only [ovGet, List.filter_cons] at ih ⊢
+    by_cases hq : q p.1 = true
+    · simp only [hq, if_true, List.find?_cons]
+      by_cases hp : p.1 = h
+      · have : (p.1 == h) = true := by simp [hp]
+        simp [this, ← hp, hq]
+      · have : (p.1 == h) = false := by simp [hp]
+        simp only [this]; exact ih
+    · simp only [hq, Bool.false_eq_true, if_false, List.find?_cons]
+      by_cases hp : p.1 = h
+      · have e : (p.1 == h) = true := by simp [hp]
+        rw [ih]
+        have : q h = false := by rw [← hp]; simpa using hq
+        simp [this]
+      · have : (p.1 == h) = false := by simp [hp]
+        simp only [this]; exact ih
+
+theorem filter_keys_nodup (o : List (Handle × Nat)) (q : Handle × Nat → Bool) (nd : (o.map (·.1)).Nodup) :
+    ((o.filter q).map (·.1)).Nodup := nd.sublist ((List.filter_sublist).map _)
+
+theorem rep_intersect {mi : MasterIndex} {a b : ASet} {ra rb : Ref} (r : Rep mi a ra) (r' : Rep mi b rb) :
+    Rep mi (a.intersect mi b) (ra.intersect rb) := by
+  refine ⟨(get_intersect mi a b r.inv default).1, filter_keys_nodup _ _ r.nodup, ?_⟩
+  intro h
+  rw [(get_intersect mi a b r.inv h).2]
+  unfold Ref.intersect Ref.get ASet.has
+  rw [ovGet_filter ra (fun k => (ovGet rb k).isSome), r.get h, r'.get h]
+  rfl
+
+theorem rep_subtract {mi : MasterIndex} {a b : ASet} {ra rb : Ref} (r : Rep mi a ra) (r' : Rep mi b rb) :
+    Rep mi (a.subtract mi b) (ra.subtract rb) := by
+  refine ⟨(get_subtract mi a b r.inv default).1, filter_keys_nodup _ _ r.nodup, ?_⟩
+  intro h
+  rw [(get_subtract mi a b r.inv h).2]
+  unfold Ref.subtract Ref.get ASet.has
+  rw [ovGet_filter ra (fun k => (ovGet rb k).isNone), r.get h, r'.get h]
+  unfold Ref.get
+  cases ovGet rb h <;> simp
+
+/-- **main theorem**: a set that represents the reference map `ref` answers every observation as
+    the executable statement of C48 demands: `All`/`Keys` enumerate each member exactly once,
+    `Len` is the number of members, `Get` is the map -/
+theorem rep_spec {mi : MasterIndex} {a : ASet} {ref : Ref} (r : Rep mi a ref) :
+    specAll ref (a.all mi) = true ∧ specKeys ref (a.keys mi) = true ∧ specLen ref (a.len mi) = true ∧
+    ∀ h, specGet ref h (a.get mi h) = true := by
+  have hperm : (a.all mi).Perm ref := by
+    have nd2 : ref.Nodup := List.Pairwise.of_map (fun x : Handle × Nat => x.1) (fun _ _ h e => h (by rw [e])) r.nodup
+    rw [List.perm_ext_iff_of_nodup (all_nodup mi a r.inv.toWF) nd2]
+    rintro ⟨h, v⟩
+    rw [mem_all_iff mi a r.inv.toWF, r.get h, Ref.get, ovGet_eq_some_iff _ r.nodup]
+  refine ⟨by simp [specAll, List.isPerm_iff, hperm], ?_, ?_, ?_⟩
+  · simp only [specKeys, List.isPerm_iff, ASet.keys]; exact hperm.map _
+  · simp [specLen, ASet.len, hperm.length_eq]
+  · intro h; simp [specGet, r.get h]
+
+/-! ### histories of operations on one set -/
+
+inductive Op where
+  | set (h : Handle) (v : Nat)
+  | insert (h : Handle)
+  | delete (h : Handle)
+
+def applyOp (mi : MasterIndex) (a : ASet) : Op → ASet
+  | .set h v => a.set mi h v
+  | .insert h => a.insert mi h
+  | .delete h => a.delete mi h
+
+def applyRef (r : Ref) : Op → Ref
+  | .set h v => r.set h v
+  | .insert h => r.set h 0
+  | .delete h => r.delete h
+
+/-- every history of Set/Insert/Delete on a fresh set over any master index is represented by the
+    same history on the reference map -/
+theorem history_refines (mi : MasterIndex) (ops : List Op) :
+    Rep mi (ops.foldl (applyOp mi) (ASet.new mi)) (ops.foldl applyRef []) := by
+  suffices h : ∀ (ops : List Op) a ref, Rep mi a ref → Rep mi (ops.foldl (applyOp mi) a) (ops.foldl applyRef ref) from
+    h ops _ _ (rep_new mi)
+  intro ops
+  induction ops with
+  | nil => intro a ref r; exact r
+  | cons op ops ih =>
+    intro a ref r
+    simp only [List.foldl_cons]
+    apply ih
+    cases op with
+    | set h v => exact rep_set r h v
+    | insert h => exact rep_insert r h
+    | delete h => exact rep_delete r h
+
+/-- the executable statement after any history -/
+theorem history_meets_spec (mi : MasterIndex) (ops : List Op) :
+    let a := ops.foldl (applyOp mi) (ASet.new mi)
+    let ref := ops.foldl applyRef []
+    specAll ref (a.all mi) = true ∧ specKeys ref (a.keys mi) = true ∧ specLen ref (a.len mi) = true ∧
+      ∀ h, specGet ref h (a.get mi h) = true :=
+  rep_spec (history_refines mi ops)
+
+/-! ### the master index may grow while a set is in use
+
+`MergeFinalIndexes` only appends entries to the maps of `idx[0]` (C08: `Index.merge`), other
+indexes come and go. A set created earlier keeps answering as before. -/
+
+/-- `mi'` extends `mi`: the maps of the main index only got longer -/
+def Ext (mi mi' : MasterIndex) : Prop := ∀ t, ∃ s, mi'.first.byType t = mi.first.byType t ++ s
+
+/-- the arrays of the set are not longer than the main index they were created for (+1) -/
+def LenOK (mi : MasterIndex) (a : ASet) : Prop := ∀ t, (a.sub t).value.length ≤ stableLen mi t + 1
+
+theorem lenOK_new (mi : MasterIndex) : LenOK mi (ASet.new mi) := by
+  intro t; cases t <;> simp [ASet.new, ASet.sub]
+
+theorem lenOK_set {mi : MasterIndex} {a : ASet} (hl : LenOK mi a) (h : Handle) (v : Nat) : LenOK mi (a.set mi h v) := by
+  rw [set_eq]
+  split
+  · intro t; rw [sub_with_overflow]; exact hl t
+  · intro t
+    rw [sub_setSub]
+    split
+    · rename_i ht; subst ht; simpa using hl h.type
+    · exact hl t
+
+theorem lenOK_delete {mi : MasterIndex} {a : ASet} (hl : LenOK mi a) (h : Handle) : LenOK mi (a.delete mi h) := by
+  rw [delete_eq]
+  split
+  · intro t; rw [sub_with_overflow]; exact hl t
+  · split
+    · intro t
+      rw [sub_setSub]
+      split
+      · rename_i ht; subst ht; simpa using hl h.type
+      · exact hl t
+    · exact hl
+
+theorem slot_ext {mi mi' : MasterIndex} (ext : Ext mi mi') {a : ASet} (hl : LenOK mi a) (h : Handle) :
+    (validSlot mi' a h ↔ validSlot mi a h) ∧ (validSlot mi a h → blobIndex mi' h = blobIndex mi h) := by
+  obtain ⟨s, hs⟩ := ext h.type
+  have hap := firstPos_append (mi.first.byType h.type) s h.id
+  have hlen := hl h.type
+  unfold validSlot blobIndex stableLen at *
+  rw [hs]
+  by_cases hv : firstPos (mi.first.byType h.type) h.id = -1
+  · rcases hap.2 hv with h1 | h1
+    · simp [hv, h1]
+    · have h2 : firstPos (mi.first.byType h.type ++ s) h.id ≥ ((a.sub h.type).value.length : Int) := by omega
+      constructor
+      · constructor
+        · intro hc; exact absurd (Or.inl h2) hc
+        · intro hc; exact absurd (Or.inr hv) hc
+      · intro hc; exact absurd (Or.inr hv) hc
+  · rw [hap.1 hv]
+    exact ⟨Iff.rfl, fun _ => rfl⟩
+
+/-- **a set survives index growth**: same answers, same invariants -/
+theorem grow_preserves {mi mi' : MasterIndex} (ext : Ext mi mi') {a : ASet} {ref : Ref} (r : Rep mi a ref)
+    (hl : LenOK mi a) : Rep mi' a ref ∧ LenOK mi' a := by
+  have hget : ∀ h, a.get mi' h = a.get mi h := by
+    intro h
+    rw [get_eq, get_eq]
+    cases ovGet a.overflow h with
+    | some v => rfl
+    | none =>
+      simp only
+      obtain ⟨hiff, heq⟩ := slot_ext ext hl h
+      by_cases hv : validSlot mi a h
+      · simp only [slotGet, heq hv]
+      · rw [slotGet_invalid mi a h hv, slotGet_invalid mi' a h (fun hv' => hv (hiff.mp hv'))]
+  refine ⟨⟨⟨r.inv.toWF, ?_⟩, r.nodup, fun h => by rw [hget h, r.get h]⟩, ?_⟩
+  · intro h hs hv'
+    exact r.inv.ovInvalid h hs ((slot_ext ext hl h).1.mp hv')
+  · intro t
+    obtain ⟨s, hs⟩ := ext t
+    have := hl t
+    unfold stableLen at *
+    rw [hs, List.length_append]; omega
+
+/-! ### negation witness: the original iteration violates the property (finding F4)
+
+One blob stored in two packs, inserted into a fresh set: the original `All` (transcribed as
+`ASet.allOld`) reports it twice, so `Len = 2` for one member. The fixed iteration reports it once. -/
+
+def exIdx : Index :=
+  { data := [⟨[1], 0, 0, 40, 0⟩, ⟨[1], 1, 0, 40, 0⟩, ⟨[2], 1, 40, 40, 0⟩], tree := [],
+    packs := [[0xaa], [0xab]], final := true, ids := [[0xee]] }
+
+def exMI : MasterIndex := ⟨exIdx, []⟩
+
+def exH : Handle := ⟨.data, [1]⟩
+def exSet : ASet := (ASet.new exMI).insert exMI exH
+
+theorem old_all_reports_twice :
+    (exSet.allOld exMI).map (·.1) = [exH, exH] ∧ specKeys [(exH, 0)] ((exSet.allOld exMI).map (·.1)) = false := by
+  decide
+
+/-- non-vacuity: the fixed code on the same input; a member stored twice is reported once -/
+example : exSet.keys exMI = [exH] ∧ exSet.len exMI = 1 := by decide
+
+example : Rep exMI exSet [(exH, 0)] := rep_insert (rep_new exMI) exH
+
 end Restic.Props.C48
